@@ -169,3 +169,52 @@ def reachable_blocks(inst, start, avoid=()):
 
 def return_blocks(inst):
     return [bi for bi, b in enumerate(inst["blocks"]) if b["t"]["k"] == "return"]
+
+
+def defs_of(inst, local):
+    """Assignments whose destination is exactly `local` (no projection): list of (bb, rvalue) plus
+    call destinations (bb, 'call', term)."""
+    out = []
+    for bi, b in enumerate(inst["blocks"]):
+        for s in b["s"]:
+            if s["k"] == "assign" and s["p"]["l"] == local and not s["p"].get("p"):
+                out.append((bi, s["r"]))
+        t = b["t"]
+        if t["k"] == "call" and t["dest"]["l"] == local and not t["dest"].get("p"):
+            out.append((bi, {"k": "call", "term": t}))
+    return out
+
+
+def origin(inst, operand, depth=8):
+    """Follow copies / moves / borrows of an operand back to a place rooted at a parameter or to a
+    call result. Returns ('param', local, [field names...]) | ('call', callee_path, term) | ('const', c) | ('unknown',)."""
+    if "const" in operand:
+        return ("const", operand["const"])
+    pl = operand.get("copy") or operand.get("move")
+    return place_origin(inst, pl, depth)
+
+
+def place_origin(inst, pl, depth=8):
+    fields = [e["n"] for e in pl.get("p", ()) if isinstance(e, dict) and "f" in e]
+    l = pl["l"]
+    if 1 <= l <= inst["arg_count"]:
+        return ("param", l, fields)
+    if depth == 0:
+        return ("unknown",)
+    ds = defs_of(inst, l)
+    if len(ds) != 1:
+        return ("unknown",)
+    bi, r = ds[0]
+    if r["k"] == "call":
+        return ("call", r["term"].get("callee_path"), r["term"])
+    if r["k"] == "use":
+        o = origin(inst, r["a"], depth - 1)
+    elif r["k"] in ("ref", "rawptr"):
+        o = place_origin(inst, r["p"], depth - 1)
+    elif r["k"] == "cast":
+        o = origin(inst, r["a"], depth - 1)
+    else:
+        return ("unknown",)
+    if o[0] == "param":
+        return ("param", o[1], o[2] + fields)
+    return o
